@@ -1,7 +1,182 @@
-(** Proofs about the WebAuthn JSON model (C14). *)
+(** Proofs about the WebAuthn JSON model (C14).  All statements are for ALL inputs (byte strings,
+    numbers, documents, schemas); the schema-specific ones are instantiated in Props/C14.v on the
+    generated gen/JsonSchema.v. *)
 From Coq Require Import ZArith ZifyBool ZifyNat ZifyN Lia.
 From PK Require Import Lib.Bytes Lib.Base64 Lib.Base64Facts Wire.Json.
 Ltac Zify.zify_post_hook ::= Z.div_mod_to_equations.
 Open Scope N_scope.
 
-Lemma stub_true : True. Proof. exact I. Qed.
+(** * (a) every presentation of a byte string is read back by the [Bytes] visitor *)
+
+Lemma seq_all_ok {A B} fl (f : A -> res B) (l : list A) (l' : list B) :
+  Forall2 (fun x y => f x = Ok y) l l' -> seq_all fl f l = Ok l'.
+Proof.
+  induction 1 as [|x y l l' Hxy _ IH]; cbn [seq_all]; [reflexivity|].
+  rewrite Hxy, IH. reflexivity.
+Qed.
+
+Definition json_of_bytes (b : bytes) : json := JArr (map (fun n => JInt (Z.of_N n)) b).
+
+Lemma de_u8_byte n : n < 256 -> de_u8 (JInt (Z.of_N n)) = Some n.
+Proof.
+  intros H. unfold de_u8.
+  replace ((0 <=? Z.of_N n)%Z && (Z.of_N n <=? 255)%Z) with true by lia.
+  rewrite N2Z.id. reflexivity.
+Qed.
+
+Theorem bytes_array_parses fl b : bytes_ok b -> de_bytes fl (json_of_bytes b) = Ok b.
+Proof.
+  intros H. unfold json_of_bytes, de_bytes. apply seq_all_ok.
+  induction H as [|n b Hn _ IH]; cbn [map]; constructor; [|exact IH].
+  rewrite (de_u8_byte n Hn). reflexivity.
+Qed.
+
+Theorem bytes_b64url_parses fl b k : bytes_ok b -> de_bytes fl (JStr (b64url_encode b ++ repeat 61 k)) = Ok b.
+Proof. intros H. unfold de_bytes. rewrite (bytes_try_from_url b k H). reflexivity. Qed.
+
+Theorem bytes_b64_parses fl b k : bytes_ok b -> de_bytes fl (JStr (b64_encode b ++ repeat 61 k)) = Ok b.
+Proof. intros H. unfold de_bytes. rewrite (bytes_try_from_std b k H). reflexivity. Qed.
+
+(** the five presentations the property names, in both deserialiser flavours *)
+Theorem bytes_presentations fl b : bytes_ok b ->
+  de fl TBytes (json_of_bytes b) = Ok (RBytes b)
+  /\ de fl TBytes (JStr (b64url_encode b)) = Ok (RBytes b)
+  /\ de fl TBytes (JStr (b64url_encode b ++ b64_padding b)) = Ok (RBytes b)
+  /\ de fl TBytes (JStr (b64_encode b)) = Ok (RBytes b)
+  /\ de fl TBytes (JStr (b64_encode b ++ b64_padding b)) = Ok (RBytes b).
+Proof.
+  intros H. cbn [de]. destruct (b64_padding_repeat b) as [k ->].
+  rewrite (bytes_array_parses fl b H), (bytes_b64url_parses fl b k H), (bytes_b64_parses fl b k H).
+  pose proof (bytes_b64url_parses fl b 0 H) as E1. pose proof (bytes_b64_parses fl b 0 H) as E2.
+  cbn [repeat] in E1, E2. rewrite app_nil_r in E1, E2. rewrite E1, E2. repeat split; reflexivity.
+Qed.
+
+(** * (b) numbers: number, decimal string and integral float agree *)
+
+Lemma digits_fuel_lt f : forall n, Forall (fun d => d < 10) (digits_fuel f n).
+Proof.
+  induction f as [|f IH]; intros n; cbn [digits_fuel]; [constructor|].
+  destruct (N.ltb_spec n 10) as [Hn|Hn]; [repeat constructor; exact Hn|].
+  apply Forall_app. split; [apply IH|]. repeat constructor. apply N.mod_lt. lia.
+Qed.
+
+Definition dfold (acc : N) (ds : list N) : N := fold_left (fun a d => a * 10 + d) ds acc.
+
+Lemma dfold_digits f : forall n, n < 10 ^ N.of_nat f -> dfold 0 (digits_fuel f n) = n.
+Proof.
+  unfold dfold. induction f as [|f IH]; intros n Hn; cbn [digits_fuel].
+  - cbn in Hn. cbn. lia.
+  - destruct (N.ltb_spec n 10) as [H10|H10]; [cbn; lia|].
+    rewrite fold_left_app. cbn [fold_left]. rewrite IH.
+    + lia.
+    + rewrite Nat2N.inj_succ, N.pow_succ_r' in Hn. lia.
+Qed.
+
+Lemma digits_fuel_nonempty f n : digits_fuel (S f) n <> [].
+Proof.
+  cbn [digits_fuel]. destruct (n <? 10); [discriminate|]. intros H. apply app_eq_nil in H. destruct H; discriminate.
+Qed.
+
+Lemma dval_acc_digits ds : forall acc, Forall (fun d => d < 10) ds ->
+  dval_acc acc (map (N.add 48) ds) = Some (dfold acc ds).
+Proof.
+  unfold dfold. induction ds as [|d ds IH]; intros acc H; cbn [map dval_acc fold_left]; [reflexivity|].
+  inversion_clear H as [|? ? Hd Hds]. unfold is_digit.
+  replace ((48 <=? 48 + d) && (48 + d <=? 57)) with true by lia.
+  replace (48 + d - 48) with d by lia. apply IH, Hds.
+Qed.
+
+Lemma dec_of_N_head n : exists c r, dec_of_N n = c :: r /\ 48 <= c.
+Proof.
+  unfold dec_of_N. pose proof (digits_fuel_nonempty 19 n) as Hne.
+  change (S 19) with 20%nat in Hne.
+  destruct (digits_fuel 20 n) as [|d ds]; [contradiction|]. cbn [map]. exists (48 + d), (map (N.add 48) ds). split; [reflexivity|lia].
+Qed.
+
+Lemma parse_unsigned_dec n : n < 10 ^ 20 -> parse_unsigned (dec_of_N n) = Some n.
+Proof.
+  intros Hn. destruct (dec_of_N_head n) as (c & r & E & _). unfold parse_unsigned. rewrite E, <- E.
+  unfold dec_of_N. rewrite (dval_acc_digits _ 0 (digits_fuel_lt 20 n)). f_equal. apply dfold_digits. exact Hn.
+Qed.
+
+(** [T::from_str(&n.to_string())] *)
+Lemma parse_int_str_dec t z : fits t z = true -> parse_int_str t (dec_of_Z z) = Some z.
+Proof.
+  intros Hfit. unfold dec_of_Z.
+  assert (Hb : (- 10 ^ 19 < z < 10 ^ 19)%Z) by (unfold fits, I64_MIN, I64_MAX, U32_MAX in Hfit; destruct t; lia).
+  destruct (Z.ltb_spec z 0) as [Hneg|Hpos].
+  - destruct t; [unfold fits in Hfit; lia|].
+    unfold parse_int_str. cbn [is_ni64]. rewrite N.eqb_refl. cbn [andb].
+    rewrite parse_unsigned_dec by lia. rewrite Z2N.id by lia. rewrite Z.opp_involutive.
+    unfold visit_int. rewrite Hfit. reflexivity.
+  - destruct (dec_of_N_head (Z.to_N z)) as (c & r & E & Hc). unfold parse_int_str. rewrite E.
+    replace (c =? 45) with false by lia. replace (c =? 43) with false by lia. cbn [andb]. rewrite <- E.
+    rewrite parse_unsigned_dec by lia. rewrite Z2N.id by lia.
+    unfold visit_int. rewrite Hfit. reflexivity.
+Qed.
+
+(** the decimal m * 10^e denotes the integer n exactly *)
+Definition dec_is (m e n : Z) : Prop :=
+  if (0 <=? e)%Z then n = (m * 10 ^ e)%Z else m = (n * 10 ^ (- e))%Z.
+
+Lemma pow10_ge_pow8 k : (0 <= k -> 2 ^ (3 * k) <= 10 ^ k)%Z.
+Proof.
+  intros Hk. rewrite Z.pow_mul_r by lia. change (2 ^ 3)%Z with 8%Z.
+  apply Z.pow_le_mono_l. lia.
+Qed.
+
+Lemma dec_trunc_exact m e n : dec_is m e n -> dec_trunc m e = n.
+Proof.
+  unfold dec_is, dec_trunc. destruct (Z.leb_spec 0 e) as [He|He]; [intros ->; reflexivity|].
+  intros ->. set (k := (- e)%Z). assert (Hk : (0 < k)%Z) by lia.
+  assert (Hp : (0 < 10 ^ k)%Z) by (apply Z.pow_pos_nonneg; lia).
+  destruct (Z.leb_spec (Z.log2 (Z.abs (n * 10 ^ k)) + 1) (3 * k)) as [Hs|Hs].
+  - (* the magnitude test says |m| < 8^k <= 10^k, so n = 0 *)
+    destruct (Z.eq_dec n 0) as [->|Hn]; [reflexivity|exfalso].
+    assert (Ha : (0 < Z.abs (n * 10 ^ k))%Z) by nia.
+    pose proof (Z.log2_spec _ Ha) as [_ Hlt].
+    assert (Hle : (2 ^ Z.succ (Z.log2 (Z.abs (n * 10 ^ k))) <= 2 ^ (3 * k))%Z) by (apply Z.pow_le_mono_r; lia).
+    pose proof (pow10_ge_pow8 k ltac:(lia)) as H8.
+    rewrite Z.abs_mul, (Z.abs_eq (10 ^ k)) in * by lia.
+    assert (H1 : (1 <= Z.abs n)%Z) by lia.
+    assert (Hm : (1 * 10 ^ k <= Z.abs n * 10 ^ k)%Z) by (apply Z.mul_le_mono_nonneg_r; lia).
+    lia.
+  - apply Z.quot_mul. lia.
+Qed.
+
+Lemma f64_as_i64_exact m e n : dec_is m e n -> (I64_MIN <= n <= I64_MAX)%Z -> f64_as_i64 m e = n.
+Proof.
+  intros Hd Hn. unfold f64_as_i64.
+  destruct (Z.eqb_spec m 0) as [->|Hm].
+  - unfold dec_is in Hd. destruct (0 <=? e)%Z; [lia|]. symmetry in Hd. apply Z.mul_eq_0 in Hd. destruct Hd as [Hd|Hd]; [lia|].
+    exfalso. assert (0 < 10 ^ (- e))%Z by (apply Z.pow_pos_nonneg; lia). lia.
+  - destruct (Z.ltb_spec 400 e) as [He|He].
+    + (* |n| >= 10^400 does not fit i64 *)
+      exfalso. unfold dec_is in Hd. replace (0 <=? e)%Z with true in Hd by lia.
+      assert (10 ^ 20 <= 10 ^ e)%Z by (apply Z.pow_le_mono_r; lia).
+      unfold I64_MIN, I64_MAX in Hn. nia.
+    + rewrite (dec_trunc_exact m e n Hd).
+      replace (F64_INF <=? Z.abs n)%Z with false; [unfold I64_MIN, I64_MAX in *; lia|].
+      symmetry. apply Z.leb_gt. unfold F64_INF, I64_MIN, I64_MAX in *.
+      assert (2 ^ 64 < 2 ^ 1024 - 2 ^ 970)%Z by (vm_compute; reflexivity). lia.
+Qed.
+
+(** [StringOrNum<T>]: the three presentations of an integer in range *)
+Theorem string_or_num_presentations t n : fits t n = true ->
+  string_or_num t (JInt n) = Some n
+  /\ string_or_num t (JStr (dec_of_Z n)) = Some n
+  /\ (forall m e, dec_is m e n -> string_or_num t (JDec m e) = Some n).
+Proof.
+  intros Hfit. repeat split.
+  - cbn [string_or_num]. unfold visit_int. rewrite Hfit. reflexivity.
+  - cbn [string_or_num]. rewrite (parse_int_str_dec t n Hfit). reflexivity.
+  - intros m e Hd. cbn [string_or_num]. rewrite (f64_as_i64_exact m e n Hd).
+    + unfold visit_int. rewrite Hfit. reflexivity.
+    + unfold fits, I64_MIN, I64_MAX, U32_MAX in *. destruct t; lia.
+Qed.
+
+Lemma dec_is_n0 n : dec_is n 0 n.
+Proof. unfold dec_is. cbn. lia. Qed.
+
+Lemma dec_is_point_zero n : dec_is (n * 10) (-1) n.     (* the literal "n.0" *)
+Proof. unfold dec_is. cbn. lia. Qed.
